@@ -47,6 +47,7 @@ class Path:
     value: Term
     line: int = 0
     notes: tuple = ()
+    writes: tuple = ()  # (parameter, final term) for parameters whose OBJECT the callee has modified in place
 
 
 @dataclass
@@ -403,6 +404,10 @@ class Evaluator:
                 outs.append((s2, "fall", None, line))
             return outs
         if isinstance(st, ast.If):
+            if (not st.orelse and len(st.body) == 1 and isinstance(st.body[0], ast.For) and not st.body[0].orelse
+                    and _guard_is_vacuous(st.test, st.body[0].iter)):
+                # `if len(X) > 1: for a, b in combinations(X, 2): ...`: when the test fails the loop has nothing to visit
+                return self.exec_for(st.body[0], state, func)
             outs = []
             for s, c in self.eval(st.test, state, func):
                 c = self.as_cond(c)
@@ -582,12 +587,26 @@ class Evaluator:
 
     # -------------------------------------------------------------- for loops
     def exec_for(self, st: ast.For, state: State, func: Func):
-        line = st.lineno
         outs = []
         for s0, it in self.eval(st.iter, state, func):
+            outs.extend(self._exec_for_over(st, s0, it, func))
+        return outs
+
+    def _exec_for_over(self, st: ast.For, s0: State, it: Term, func: Func):
+        line = st.lineno
+        outs = []
+        if True:
             if it[0] == "bottom":
                 outs.append((s0, "raise", it[1], line))
-                continue
+                return outs
+            if it[0] == "concat" and len(it) == 3 and not st.orelse and not any(isinstance(n, ast.Break) for n in ast.walk(st)):
+                # a loop over A + B visits A, then B
+                for o in self._exec_for_over(st, s0, it[1], func):
+                    if o[1] == "fall":
+                        outs.extend(self._exec_for_over(st, o[0], it[2], func))
+                    else:
+                        outs.append(o)
+                return outs
             # statically known literal of length <= 4 : unroll
             if it[0] in ("listlit", "tuplelit", "setlit") and len(it[1]) <= 4 and it[0] != "setlit":
                 live = [s0]
@@ -609,11 +628,11 @@ class Evaluator:
                         outs.extend(self.exec_block(st.orelse, s, func))
                     else:
                         outs.append((s, "fall", None, line))
-                continue
+                return outs
             fused = self._fuse_generator(it)
             if fused is not None:
                 outs.extend(self._exec_for_fused(st, s0, fused, func))
-                continue
+                return outs
             outs.extend(self._exec_for_generic(st, s0, it, func))
         return outs
 
@@ -624,7 +643,7 @@ class Evaluator:
             t = t[2][0]
         if t[0] == "accum" and t[1] == "concat" and t[2] == ("listlit", ()) and t[3][0] == "listlit" and len(t[3][1]) == 1 and t[5] == ("const", False):
             return t[3][1][0], t[4]
-        if t[0] == "comp" and t[1] in ("list", "gen") and len(t[3]) >= 2 and not (isinstance(t[2], tuple) and t[2] and t[2][0] == "%payload"):
+        if t[0] == "comp" and t[1] in ("list", "gen") and len(t[3]) >= 1 and not (isinstance(t[2], tuple) and t[2] and t[2][0] == "%payload"):
             return t[2], t[3]
         if t[0] == "call" and isinstance(t[1], str) and t[1].split(".")[-1] == "product" and not t[3] and len(t[2]) >= 2:
             # for a, b in product(A, B)  =  for a in A: for b in B
@@ -694,6 +713,17 @@ class Evaluator:
                         lp, lsrc, lconds = g[-1]
                         g[-1] = (lp, lsrc, tuple(lconds) + tuple(extra))
                         res = _mk_accum(kind, res, payload, tuple(g) + tuple(inner), bool(breaks))
+            if (not ok or has_unknown(res)) and self.loop_once and oldv is not None:
+                # relational abstraction, as in the generic loop: the state after ONE generic iteration, tagged with what the loop ranges over
+                val = oldv
+                for extra, newv in reversed(alts):
+                    c = self.mk_bool("and", list(extra)) if extra else TRUE
+                    val = newv if c == TRUE else ("ite", c, newv, val)
+                if len(gens) == 1 and not gens[0][2]:
+                    after.env[name] = ("after-iteration", val, gens[0][0], gens[0][1])
+                else:
+                    after.env[name] = ("after-iteration", val, ("tuplelit", tuple(p for p, _, _ in gens)), ("comp", "list", TRUE, tuple(gens)))
+                continue
             if not ok:
                 after.env[name] = unknown(f"loop-carried:{name}", line)
                 self.unknowns.append((func.qname, line, f"loop-carried:{name}"))
@@ -704,7 +734,7 @@ class Evaluator:
         if exits:
             for stt, status, val, ln in exits:
                 extra = stt.conds[len(base_conds):]
-                after.conds = after.conds + (("forall-not", ("tuplelit", tuple(p for p, _, _ in gens)), gens[0][1], tuple(extra_conds[1:]) + tuple(extra)),)
+                after.conds = after.conds + (("forall-not", gens[0][0] if len(gens) == 1 else ("tuplelit", tuple(p for p, _, _ in gens)), gens[0][1], tuple(extra_conds[1:]) + tuple(extra)),)
         if st.orelse:
             outs.extend(self.exec_block(st.orelse, after, func))
         else:
@@ -1497,6 +1527,14 @@ class Evaluator:
             return FALSE
         if x[0] == "const":
             return FALSE
+        if x[0] == "call" and x[1] in ("dict", "list", "set", "frozenset", "tuple", "sorted", "str", "len", "copyof"):
+            return FALSE  # constructors of the standard containers never give None
+        if x[0] in ("ite", "orelse") and len(x) >= 3:
+            parts = [self.isnone(b) for b in x[-2:]]
+            if all(p_ == FALSE for p_ in parts):
+                return FALSE
+        if x[0] == "after-iteration" and self.isnone(x[1]) == FALSE:
+            return FALSE
         typ = self.typeof(x)
         if typ is not None and typ != "none":
             if not (isinstance(typ, tuple) and typ[0] == "union" and "none" in typ[1]):
@@ -1611,8 +1649,18 @@ class Evaluator:
             if isinstance(r, Func):
                 self.calls_resolved += 1
                 if r.qname in self.primitives:
-                    return [(state, self.prim_call(r, args, kwargs))]
-                return self.inline(r, args, kwargs, state, func, line)
+                    t = self.prim_call(r, args, kwargs)
+                    prm = self._inplace_param(r)
+                    if prm is not None and e is not None:
+                        n = self._actual_names(r, e, False).get(prm)
+                        kw = dict(t[3]) if not t[2] else {}
+                        if n is not None and n in state.env and state.env[n] == kw.get(prm):
+                            # the primitive modifies this argument in place and returns it: the caller's variable now names that result
+                            s2 = state.fork()
+                            s2.env[n] = t
+                            return [(s2, t)]
+                    return [(state, t)]
+                return self.inline(r, args, kwargs, state, func, line, call_ast=e)
             if isinstance(r, Cls):
                 self.calls_resolved += 1
                 return self.construct(r, args, kwargs, state, func, line)
@@ -1768,7 +1816,7 @@ class Evaluator:
         return b
 
     def inline(self, f: Func, args, kwargs, state: State, func: Func, line: int, self_term: Term | None = None,
-               closure: dict | None = None):
+               closure: dict | None = None, call_ast: ast.Call | None = None):
         if (f.qname in self.stack or f.qname in self.recurse_as) and closure is None:
             t = ("recurse", f.qname, tuple(args), tuple(sorted(kwargs.items())))
             return [(state, t)]
@@ -1796,10 +1844,16 @@ class Evaluator:
             return outs
         paths = self.run(f, b, self_term if needs_self else None)
         outs = []
+        actual_names = self._actual_names(f, call_ast, needs_self) if call_ast is not None else {}
         for p in paths:
             s = State(dict(state.env), add_conds(state.conds, p.conds), state.notes + p.notes)
             if self.infeasible(s.conds):
                 continue
+            for param, final in p.writes:
+                # the callee modified the OBJECT its parameter names: the caller's variable that was passed sees the same object
+                n = actual_names.get(param)
+                if n is not None and n in s.env and s.env[n] == b.get(param):
+                    s.env[n] = final
             if p.kind == "raise":
                 outs.append((s, ("bottom", p.value)))
             else:
@@ -1807,6 +1861,72 @@ class Evaluator:
         if not outs:
             return [(state, unknown(f"no-feasible-path:{f.qname}", line))]
         return outs
+
+    def _actual_names(self, f: Func, call: ast.Call, skip_self: bool) -> dict:
+        """parameter -> the caller's plain variable passed for it (only arguments written as a bare name)."""
+        a = f.node.args
+        pos = [x.arg for x in a.posonlyargs + a.args]
+        if skip_self and pos:
+            pos = pos[1:]
+        out = {}
+        if any(isinstance(x, ast.Starred) for x in call.args):
+            return out
+        for prm, x in zip(pos, call.args):
+            if isinstance(x, ast.Name):
+                out[prm] = x.id
+        for k in call.keywords:
+            if k.arg is not None and isinstance(k.value, ast.Name):
+                out[k.arg] = k.value.id
+        return out
+
+    def _inplace_param(self, r: Func) -> str | None:
+        """The parameter that `r` modifies in place AND returns on every path (`def f(d, ...): d[k] = v; return d`), else None."""
+        cache = self.__dict__.setdefault("_inplace_cache", {})
+        if r.qname in cache:
+            return cache[r.qname]
+        res = None
+        a = r.node.args
+        params = {x.arg for x in a.posonlyargs + a.args + a.kwonlyargs}
+        rets = [n for n in ast.walk(r.node) if isinstance(n, ast.Return)]
+        names = {n.value.id if isinstance(n.value, ast.Name) else None for n in rets}
+        if rets and len(names) == 1 and None not in names and next(iter(names)) in params \
+                and not any(isinstance(n, (ast.FunctionDef, ast.Lambda)) and n is not r.node for n in ast.walk(r.node)):
+            prm = next(iter(names))
+            rebound = any(isinstance(n, ast.Name) and n.id == prm and isinstance(n.ctx, ast.Store) for n in ast.walk(r.node))
+            mutated = False
+            for n in ast.walk(r.node):
+                if isinstance(n, ast.Subscript) and isinstance(n.ctx, (ast.Store, ast.Del)) and isinstance(n.value, ast.Name) and n.value.id == prm:
+                    mutated = True
+                if isinstance(n, ast.Call) and isinstance(n.func, ast.Attribute) and isinstance(n.func.value, ast.Name) and n.func.value.id == prm \
+                        and n.func.attr in MUTATORS:
+                    mutated = True
+            if mutated and not rebound:
+                res = prm
+        cache[r.qname] = res
+        return res
+
+    def _modified_in_place(self, final: Term, initial: Term, depth: int = 0) -> bool:
+        """Does `final` denote the object `initial` after in-place modification (as opposed to another object bound to the same name)?"""
+        if final == initial:
+            return True
+        if depth > 30 or not isinstance(final, tuple) or not final:
+            return False
+        h = final[0]
+        if h == "mut":
+            return self._modified_in_place(final[1], initial, depth + 1)
+        if h == "ite":
+            return self._modified_in_place(final[2], initial, depth + 1) and self._modified_in_place(final[3], initial, depth + 1)
+        if h == "after-iteration":
+            return self._modified_in_place(final[1], initial, depth + 1)
+        if h == "call" and isinstance(final[1], str) and not final[2]:
+            r = self.model.functions.get(final[1])
+            if r is not None:
+                prm = self._inplace_param(r)
+                if prm is not None:
+                    kw = dict(final[3])
+                    if prm in kw:
+                        return self._modified_in_place(kw[prm], initial, depth + 1)
+        return False
 
     def run(self, func: Func, args: dict[str, Term], self_term: Term | None = None) -> list[Path]:
         if self_term is not None:
@@ -2246,21 +2366,25 @@ class Evaluator:
             env["%yield"] = ("listlit", ())
         try:
             state = State(env)
+            entry = dict(env)
             outs = self.exec_block(func.node.body, state, func)
             paths: list[Path] = []
             for st, status, val, line in outs:
+                w = tuple((k, st.env[k]) for k, v0 in entry.items()
+                          if k in st.env and st.env[k] is not v0 and st.env[k] != v0 and self._modified_in_place(st.env[k], v0))
+
                 if func.is_generator and status in ("fall", "return"):
-                    paths.append(Path(st.conds, "return", ("call", "iter", (st.env.get("%yield", ("listlit", ())),), ()), line, st.notes))
+                    paths.append(Path(st.conds, "return", ("call", "iter", (st.env.get("%yield", ("listlit", ())),), ()), line, st.notes, w))
                 elif status == "fall":
                     v = st.env.get(want_env, NONE) if want_env else NONE
-                    paths.append(Path(st.conds, "return", v, line, st.notes))
+                    paths.append(Path(st.conds, "return", v, line, st.notes, w))
                 elif status == "return":
                     v = st.env.get(want_env, val) if want_env else val
-                    paths.append(Path(st.conds, "return", v, line, st.notes))
+                    paths.append(Path(st.conds, "return", v, line, st.notes, w))
                 elif status == "raise":
-                    paths.append(Path(st.conds, "raise", val, line, st.notes))
+                    paths.append(Path(st.conds, "raise", val, line, st.notes, w))
                 else:
-                    paths.append(Path(st.conds, "return", unknown(f"stray {status}", line), line, st.notes))
+                    paths.append(Path(st.conds, "return", unknown(f"stray {status}", line), line, st.notes, w))
             return paths
         finally:
             self.stack.pop()
@@ -2338,6 +2462,49 @@ def _neg_alts(c: Term, limit: int) -> list[list[Term]]:
     return [[_neg(c)]]
 
 
+def _guard_is_vacuous(test: ast.expr, it: ast.expr) -> bool:
+    """Is `test` false only when iterating `it` visits nothing?  (purely syntactic; the collection must be a plain name)"""
+    def len_of(e):
+        if isinstance(e, ast.Call) and isinstance(e.func, ast.Name) and e.func.id == "len" and len(e.args) == 1 and isinstance(e.args[0], ast.Name) and not e.keywords:
+            return e.args[0].id
+        return None
+
+    def at_least(t):
+        """(name, k) when t says len(name) >= k"""
+        if isinstance(t, ast.Name):
+            return t.id, 1
+        if isinstance(t, ast.Compare) and len(t.ops) == 1:
+            a, op, b = t.left, t.ops[0], t.comparators[0]
+            if len_of(a) and isinstance(b, ast.Constant) and isinstance(b.value, int) and not isinstance(b.value, bool):
+                if isinstance(op, ast.Gt):
+                    return len_of(a), b.value + 1
+                if isinstance(op, ast.GtE):
+                    return len_of(a), b.value
+                if isinstance(op, ast.NotEq) and b.value == 0:
+                    return len_of(a), 1
+            if len_of(b) and isinstance(a, ast.Constant) and isinstance(a.value, int) and not isinstance(a.value, bool):
+                if isinstance(op, ast.Lt):
+                    return len_of(b), a.value + 1
+                if isinstance(op, ast.LtE):
+                    return len_of(b), a.value
+                if isinstance(op, ast.NotEq) and a.value == 0:
+                    return len_of(b), 1
+        return None
+
+    al = at_least(test)
+    if al is None:
+        return False
+    name, k = al
+    if k <= 1 and isinstance(it, ast.Name) and it.id == name:
+        return True
+    if isinstance(it, ast.Call) and not it.keywords and len(it.args) == 2 and isinstance(it.args[0], ast.Name) and it.args[0].id == name:
+        fn = it.func.attr if isinstance(it.func, ast.Attribute) else (it.func.id if isinstance(it.func, ast.Name) else None)
+        r = it.args[1]
+        if fn in ("combinations", "permutations") and isinstance(r, ast.Constant) and isinstance(r.value, int) and k <= r.value:
+            return True
+    return False
+
+
 def _mk_accum(kind: str, res: Term, payload: Term, gens: tuple, has_break: bool) -> Term:
     return ("accum", kind, res, payload, tuple(gens), const(bool(has_break)))
 
@@ -2345,7 +2512,7 @@ def _mk_accum(kind: str, res: Term, payload: Term, gens: tuple, has_break: bool)
 def _first_ite(t):
     bv = None
     for s_ in _subterms(t):
-        if s_[0] == "ite":
+        if s_[0] == "ite" or (s_[0] == "orelse" and len(s_) == 3):
             if bv is None:
                 bv = bound_vars(t)
             if bv and any(x in bv for x in _subterms(s_[1]) if x[0] == "var"):
@@ -2382,13 +2549,18 @@ def resolve_ites(paths: list[Path], limit: int = 64) -> list[Path]:
         if it is None or budget < 0:
             out.append(p)
             continue
+        if it[0] == "orelse":
+            # `a or b` as a value: a when a is truthy, else b
+            it_node, it = it, ("ite", ("truth", it[1]), it[1], it[2])
+        else:
+            it_node = it
         c = it[1]
         ca = alpha_normalise_bound(c)
         pos = {alpha_normalise_bound(x) for x in p.conds}
         neg = {alpha_normalise_bound(_neg(x)) for x in p.conds}
         lits_t = [l for alt in _pos_alts(c, 8) for l in alt] if c[0] in ("and", "or", "not") else [c]
         def red(path, branch, extra=()):
-            m = {it: branch}
+            m = {it_node: branch}
             conds = tuple(subst(x, m) for x in path.conds)
             for l in extra:
                 conds = add_cond(conds, l)
